@@ -246,7 +246,7 @@ func main() {
 					}
 				}
 				use(bnd, "word boundaries")
-				if c%8 == 0 || n == MAX {
+				if c%8 == 0 || n == MAX || n > 96 {
 					use(ids, "all IDs")
 				}
 				if n == MAX {
